@@ -153,6 +153,12 @@ var effContracts = map[string]effContract{
 	"(encoding/binary.bigEndian).PutUint16": {writes: []int{1}},
 	"(encoding/binary.bigEndian).PutUint32": {writes: []int{1}},
 	"(encoding/binary.bigEndian).PutUint64": {writes: []int{1}},
+	"(encoding/binary.bigEndian).AppendUint16":    {writes: []int{1}, alias: []int{1}},
+	"(encoding/binary.bigEndian).AppendUint32":    {writes: []int{1}, alias: []int{1}},
+	"(encoding/binary.bigEndian).AppendUint64":    {writes: []int{1}, alias: []int{1}},
+	"(encoding/binary.littleEndian).AppendUint16": {writes: []int{1}, alias: []int{1}},
+	"(encoding/binary.littleEndian).AppendUint32": {writes: []int{1}, alias: []int{1}},
+	"(encoding/binary.littleEndian).AppendUint64": {writes: []int{1}, alias: []int{1}},
 	"(encoding/binary.littleEndian).Uint16":    {pure: true},
 	"(encoding/binary.littleEndian).Uint32":    {pure: true},
 	"(encoding/binary.littleEndian).Uint64":    {pure: true},
@@ -964,6 +970,9 @@ func (e *Effects) AllRepoFunctions() []*ssa.Function {
 func isRepoFunc(f *ssa.Function) bool {
 	if f.Pkg != nil {
 		return IsRepoPkg(f.Pkg.Pkg)
+	}
+	if o := f.Origin(); o != nil && o.Pkg != nil {
+		return IsRepoPkg(o.Pkg.Pkg) // an instance of a generic function of this repository
 	}
 	if f.Synthetic != "" && f.Blocks != nil && f.Object() != nil && f.Object().Pkg() != nil {
 		return IsRepoPkg(f.Object().Pkg())
